@@ -6,7 +6,7 @@
     PublisherConfig, every answer script of the wrapped publisher, every sequence of calls over a
     heap of (possibly re-published) objects, every emit/Ack/Nack/Close sequence, every sequence of
     handler outcomes. *)
-From WM Require Import Base.Prelude Message.Model Handler.RouterHandle Decor.RouterMetrics Decor.Model Decor.Monitor Decor.Heap Decor.Proofs Decor.SubProofs Decor.SubAccept Decor.HeapProofs Decor.HeapRefine Decor.HeapCount Decor.MwStack Decor.MwStackProofs.
+From WM Require Import Base.Prelude Message.Model Handler.RouterHandle Decor.RouterMetrics Decor.Model Decor.Monitor Decor.Heap Decor.Proofs Decor.SubProofs Decor.SubAccept Decor.HeapProofs Decor.HeapRefine Decor.HeapCount Decor.HeapTrail Decor.Labels Decor.MwStack Decor.MwStackProofs.
 
 (** ** publisher decorators are transparent *)
 
@@ -218,6 +218,25 @@ Theorem C20_publish_inplace_model_accepted : forall st heap script calls tab,
   pub_monitor_any st (pobs_run_h st (PS heap script [] [] []) calls) tab = true.
 Proof. exact pub_monitor_any_model_all. Qed.
 
+(** the trail on a repeated object: in a call that reaches the wrapped publisher every object has
+    been through every transform of the stack once per POSITION it occupies in the batch *)
+Theorem C20_duplicates_trail_multiplicity : forall st script topic idx h,
+  hvalid_all h idx ->
+  inner_calls (ho_ev (publish_h st script topic idx h)) <> [] ->
+  forall i m, nth_error h i = Some m ->
+  exists m', nth_error (ho_heap (publish_h st script topic idx h)) i = Some m'
+             /\ pm_trail m' = pm_trail m ++ tag_block (count_nat i idx) (transform_tags st).
+Proof. exact publish_h_trails. Qed.
+
+(** the COMPLETE acceptor of publisher cases ([pub_monitor_full] = [pub_monitor_any] + the trail
+    clause with multiplicities, [trail_ok_dup]) accepts every run of the in-place model over a heap of
+    objects with distinct identities: any stack, script, call sequence, repeated objects or not *)
+Theorem C20_publish_full_model_accepted : forall st heap script calls tab,
+  NoDup (map pm_id heap) -> valid_calls (length heap) calls ->
+  counts_agree plabel_eqb tab (ps_obs (prun_h st heap script calls)) = true ->
+  pub_monitor_full st (pobs_run_h st (PS heap script [] [] []) calls) tab = true.
+Proof. exact pub_monitor_full_model. Qed.
+
 (** ** a wrapped publisher that panics (script answer [e_panic]) *)
 Theorem C20_publish_panic_escapes : forall st script topic msgs,
   stack_reject st msgs = None -> hd None script = Some e_panic ->
@@ -312,6 +331,53 @@ Theorem C20_subscribe_model_accepted : forall stk heap ops crets tab,
   sub_monitor stk heap ops (sseen_of_run stk heap ops crets tab) = true.
 Proof. exact sub_monitor_model. Qed.
 
+(** (same statement under the name DESIGN section 9 uses) the list-level acceptor [sub_monitor] accepts
+    every trace of the subscriber model that starts from fresh objects — which is every trace the
+    harness can produce: objects enter a case unmarked and without pending watchers *)
+Theorem C20_subscriber_model_accepted : forall stk heap ops crets tab,
+  forallb sfresh heap = true ->
+  length crets = count_closes ops ->
+  counts_agree slabel_eqb tab (map sobs_label (sw_obs (srun stk heap ops))) = true ->
+  sub_monitor stk heap ops (sseen_of_run stk heap ops crets tab) = true.
+Proof. exact sub_monitor_model. Qed.
+
+(** ** label values (labels.go + the fallbacks of the three recorders) *)
+
+(** publish_time_seconds: labelled from the FIRST message: handler_name = context name else
+    "<no handler>"; publisher_name = context name else the struct name of what the outermost metrics
+    decorator wraps; success = the call returned nil *)
+Theorem C20_publish_labels : forall st script topic msgs l,
+  In l (po_obs (publish st script topic msgs)) ->
+  exists m0 rest, msgs = m0 :: rest
+    /\ fst (fst l) = or_default no_handler (pm_hname m0)
+    /\ snd (fst l) = or_default (first_metrics_name st) (pm_pname m0)
+    /\ snd l = match po_res (publish st script topic msgs) with None => true | Some _ => false end.
+Proof. exact publish_labels. Qed.
+Theorem C20_publish_labels_in_router : forall st script topic m0 rest l,
+  pm_hname m0 <> 0%N -> pm_pname m0 <> 0%N ->
+  In l (po_obs (publish st script topic (m0 :: rest))) ->
+  fst (fst l) = pm_hname m0 /\ snd (fst l) = pm_pname m0.
+Proof. exact publish_labels_in_router. Qed.
+Theorem C20_publish_labels_standalone : forall st script topic m0 rest l,
+  pm_hname m0 = 0%N -> pm_pname m0 = 0%N ->
+  In l (po_obs (publish st script topic (m0 :: rest))) ->
+  fst (fst l) = no_handler /\ snd (fst l) = first_metrics_name st.
+Proof. exact publish_labels_standalone. Qed.
+(** subscriber_messages_received_total: names from the object's context, else "<no handler>" / the
+    struct name of what the INNERMOST metrics decorator wraps; acked = the settlement that won *)
+Theorem C20_received_labels : forall stk heap ops i m o,
+  has_smetrics stk = true -> nth_error heap i = Some m -> sfresh m = true ->
+  In o (obs_of i (sw_obs (srun stk heap ops))) ->
+  fst (fst (sobs_label o)) = or_default no_handler (sm_hname m)
+  /\ snd (fst (sobs_label o)) = or_default (first_smetrics_name stk) (sm_sname m)
+  /\ snd (sobs_label o) = match st (final_state m i ops) with Acked => true | _ => false end.
+Proof. exact received_labels. Qed.
+(** handler_execution_time_seconds: handler_name is the context name AS IS (no fallback: the empty
+    string outside a Router), success per outcome *)
+Theorem C20_handler_labels : forall fixed k calls l,
+  In l (run_mw fixed k calls) -> exists c, In c calls /\ fst l = fst c /\ snd l = success_label fixed (snd c).
+Proof. exact handler_labels. Qed.
+
 (** ** inside a Router (composition with C02's [handle]) *)
 
 (** the handler's outputs hit a wrapped publisher that PANICS: the Router nacks the consumed message
@@ -404,6 +470,8 @@ Print Assumptions C20_inplace_refines.
 Print Assumptions C20_inplace_sequence_refines.
 Print Assumptions C20_duplicates_transparent.
 Print Assumptions C20_duplicates_acceptor.
+Print Assumptions C20_duplicates_trail_multiplicity.
+Print Assumptions C20_publish_full_model_accepted.
 Print Assumptions C20_inplace_counted_once.
 Print Assumptions C20_inplace_simulates.
 Print Assumptions C20_publish_inplace_model_accepted.
@@ -418,6 +486,12 @@ Print Assumptions C20_subscriber_close_once.
 Print Assumptions C20_received_counted_once.
 Print Assumptions C20_received_table_counts.
 Print Assumptions C20_subscribe_model_accepted.
+Print Assumptions C20_publish_labels.
+Print Assumptions C20_publish_labels_in_router.
+Print Assumptions C20_publish_labels_standalone.
+Print Assumptions C20_received_labels.
+Print Assumptions C20_handler_labels.
+Print Assumptions C20_subscriber_model_accepted.
 Print Assumptions C20_router_publisher_panics.
 Print Assumptions C20_router_metrics.
 Print Assumptions C20_handler_counted_once.
